@@ -200,85 +200,59 @@ end Scalibr.Relax
 namespace Scalibr.Suggest
 open Scalibr.Upgrade
 
-/-
-Full-strength statement for bulk updates — "never a downgrade, allowed difference, no panic":
-    suggest level simple cur vs ≠ .panic ∧ (suggest level simple cur vs = .update v → …)
-is FALSE for the unchanged code when the requirement is a range that no known version satisfies
-(`current` stays nil and `v.Difference(current)` dereferences it): `C11_update_panic_witness`.
-Strictness ("moves strictly upward") additionally fails when two differently spelled versions compare
-equal (requirement 1.0, known version 1.0.0): `C11_update_equal_witness`.  In force: the `_partial` forms.
--/
-
-/-- Bulk update: whenever `current` is known (or nothing is known about the package) there is no
-panic, and a proposed version is one of the known versions, its difference to `current` is allowed
-by the level, and it is not below `current` in the order `mavenutil.CompareVersions` defines. -/
-theorem C11_update_step_partial (level : Nat) (simple : Bool) (cur : Option V) (vs : List V)
-    (hc : cur.isSome = true ∨ vs = []) :
-    suggest level simple cur vs ≠ .panic ∧
-    ∀ v, suggest level simple cur vs = .update v →
-      v ∈ vs ∧ allows level v.diff = true ∧ ∀ c, cur = some c → c.rank ≤ v.rank := by
-  have hnp : (cur.isNone && !vs.isEmpty) = false := by
-    rcases hc with h | h
-    · cases cur <;> simp_all
-    · simp [h]
-  unfold suggest
-  simp only [hnp, Bool.false_eq_true, if_false]
-  constructor
-  · split
-    · simp
-    · split <;> simp
-  · intro v hv
-    cases hf : vs.foldl (step level cur) none with
-    | none => simp [hf] at hv
+/-- Bulk update, full strength (after fixes 3e9bb9ee and 63128997): for every level, requirement and
+version table, a proposed version is one of the known versions, `current` is known, the proposal lies
+STRICTLY above `current` in the order `mavenutil.CompareVersions` defines, and its difference to
+`current` is allowed by the level.  The model has no panic outcome: every nil-able value of the Go code
+is an `Option` matched before use (see `Model/SuggestMaven.lean`), which the correspondence stream checks
+against the real function on every case, ranges that no known version satisfies included. -/
+theorem C11_update_step (level : Nat) (simple : Bool) (cur : Option V) (vs : List V) (v : V)
+    (h : suggest level simple cur vs = .update v) :
+    ∃ c, cur = some c ∧ v ∈ vs ∧ allows level v.diff = true ∧ c.rank < v.rank := by
+  unfold suggest at h
+  cases cur with
+  | none => simp at h
+  | some c =>
+    simp only at h
+    cases hf : vs.foldl (step level c) none with
+    | none => simp [hf] at h
     | some w =>
-      simp only [hf] at hv
-      split at hv
-      · injection hv with hv; subst hv
-        obtain ⟨g1, g2, g3⟩ := fold_spec level cur vs vs none (fun _ h => h) (by intro w hw; cases hw) w hf
-        refine ⟨g1, g2, ?_⟩
-        intro c hcc; subst hcc
-        simp only [ltOpt, decide_eq_false_iff_not] at g3
-        omega
-      · cases hv
+      simp only [hf] at h
+      split at h
+      · injection h with h; subst h
+        obtain ⟨g1, g2, g3⟩ := fold_spec level c vs vs none (fun _ h => h) (by intro w hw; cases hw) w hf
+        exact ⟨c, rfl, g1, g2, g3⟩
+      · cases h
 
-/-- Strictly upward, when the comparator separates differently spelled versions: an update that
-`Suggest` keeps (its spelling differs from the requirement's) is strictly above `current`. -/
-theorem C11_update_strict_partial (level : Nat) (simple : Bool) (c : V) (vs : List V) (v : V)
-    (hties : ∀ x ∈ vs, x.rank = c.rank → x.id = c.id)
-    (h : suggestUpdate level simple (some c) (some c.id) vs = .update v) :
-    level ≠ lNone ∧ c.rank < v.rank ∧ allows level v.diff = true := by
+/-- a range that no known version satisfies leaves the requirement alone (the former nil dereference) -/
+theorem C11_update_no_current (level : Nat) (simple : Bool) (vs : List V) : suggest level simple none vs = .keep := rfl
+
+/-- what `Suggest` finally reports: never for level None, and only versions strictly above `current`
+with an allowed difference -/
+theorem C11_update_reported (level : Nat) (simple : Bool) (cur : Option V) (curId : Option Nat) (vs : List V) (v : V)
+    (h : suggestUpdate level simple cur curId vs = .update v) :
+    level ≠ lNone ∧ ∃ c, cur = some c ∧ v ∈ vs ∧ allows level v.diff = true ∧ c.rank < v.rank := by
   unfold suggestUpdate suggestFn at h
   by_cases hl : level = lNone
   · simp [hl] at h
   · simp only [hl, if_false] at h
-    cases hs : suggest level simple (some c) vs with
+    cases hs : suggest level simple cur vs with
     | keep => simp [hs] at h
-    | panic => simp [hs] at h
     | update w =>
       simp only [hs] at h
       split at h
       · cases h
-      · rename_i hid
-        injection h with h; subst h
-        obtain ⟨_, hup⟩ := C11_update_step_partial level simple (some c) vs (Or.inl rfl)
-        obtain ⟨g1, g2, g3⟩ := hup w hs
-        have hle := g3 c rfl
-        refine ⟨hl, ?_, g2⟩
-        by_cases he : w.rank = c.rank
-        · exfalso; apply hid; rw [hties w g1 he]
-        · omega
+      · injection h with h; subst h
+        exact ⟨hl, C11_update_step level simple cur vs w hs⟩
 
 theorem C11_none_untouched_update (simple : Bool) (cur : Option V) (curId : Option Nat) (vs : List V) :
     suggestUpdate lNone simple cur curId vs = .keep := by simp [suggestUpdate]
 
-/-- known finding C11/maven-range-no-match-panic: a range requirement no known version satisfies -/
-theorem C11_update_panic_witness : suggest lMajor false none [⟨0, 0, dOther, false⟩] = .panic := by decide
-
-/-- known finding C11/maven-equal-version-update: requirement `1.0` (id 9), known version `1.0.0` (id 0)
-compares equal and is proposed as an update -/
-theorem C11_update_equal_witness :
-    suggestUpdate lPatch true (some ⟨9, 5, dSame, true⟩) (some 9) [⟨0, 5, dSame, true⟩] = .update ⟨0, 5, dSame, true⟩ := by
-  decide
+/-- the repaired witnesses: a range nothing satisfies keeps the requirement (was: panic); requirement
+`1.0` (id 9) with the equal known version `1.0.0` (id 0) keeps the requirement (was: an "update") -/
+theorem C11_update_fixed_witnesses :
+    suggest lMajor false none [⟨0, 0, dOther, false⟩] = .keep ∧
+    suggestUpdate lPatch true (some ⟨9, 5, dSame, true⟩) (some 9) [⟨0, 5, dSame, true⟩] = .keep := by decide
 
 /-! Non-vacuity: requirement 2.5.0 (rank 3) with {2.0.0, 2.1.0, 3.0.0} at level minor keeps the
 requirement (the former downgrade witness); with 2.6.0 known it moves up to it. -/
